@@ -16,11 +16,13 @@ TABLE = {
         ("Proofs/PacketP.v", ["packet_roundtrip"]),
         ("Proofs/SendRelP.v", ["sr_send_safe", "sr_get_packets_safe", "prompt_all", "prompt_small"]),
         ("Proofs/ConnP.v", ["cstep_safe", "crun_safe"]),
+        ("Proofs/RSysP.v", ["sys_inv_holds", "sys_ordered_prefix", "sys_ordered_prefix_ba"]),
     ], "Safety: for every order, duplication and loss of honest packets and every interleaving of receive calls, what the application obtained is a byte-identical prefix of what was submitted. Liveness is stated as progress: once every part of a message has arrived it is buffered and receive_message hands it over; a due message that fits the budget is retransmitted at the next tick."),
     "C02": ("ReliableUnordered: each message delivered exactly once, intact", [
         ("Proofs/RecvRelP.v", ["unordered_exactly_once", "unordered_eager", "unordered_receive_available", "honest_step_ok_or_memory", "exec_stops_only_on_memory", "drained_is_empty"]),
         ("Proofs/SliceP.v", ["ctor_reassembles"]),
         ("Proofs/SendRelP.v", ["sr_get_packets_safe", "prompt_all", "prompt_small"]),
+        ("Proofs/RSysP.v", ["sys_unordered_exactly_once", "sys_unordered_exactly_once_ba"]),
     ], ""),
     "C03": ("Message integrity / fragmentation", [
         ("Proofs/SliceP.v", ["slices_partition", "ctor_reassembles", "sctor_process_safe"]),
@@ -28,7 +30,8 @@ TABLE = {
         ("Proofs/PacketP.v", ["packet_roundtrip", "from_bytes_wf"]),
         ("Proofs/SendRelP.v", ["sr_get_packets_safe"]),
         ("Proofs/SendUnrelP.v", ["su_get_packets_safe", "su_get_packets_spec", "su_carried"]),
-        ("Proofs/RecvUnrelP.v", ["ru_process_slice_safe", "unrel_outputs_submitted"]),
+        ("Proofs/RecvUnrelP.v", ["ru_process_slice_safe"]),
+        ("Proofs/RSysP.v", ["sys_unreliable_submitted", "sys_got_submitted", "sys_ordered_prefix", "sys_unordered_exactly_once"]),
     ], ""),
     "C06": ("renet survives hostile packets", [
         ("Proofs/PacketP.v", ["from_bytes_no_panic"]),
@@ -43,6 +46,7 @@ TABLE = {
         ("Proofs/AcksP.v", ["add_pending_ack_wf", "add_pending_ack_sound", "feed_sound", "feed_wf", "acked_largest_spec", "acked_largest_wf"]),
         ("Proofs/SendRelP.v", ["sr_ack_message_safe", "sr_ack_slice_safe"]),
         ("Proofs/ConnP.v", ["ack_only_parsed", "acks_grow_only_by_parsed", "flush_acks_subset", "sent_info_faithful", "release_needs_ack"]),
+        ("Proofs/RSysP.v", ["acks_only_received", "ack_packets_only_received", "release_implies_delivered", "acked_slice_delivered"]),
     ], ""),
     "C09": ("Channel memory budgets: never exceeded, never leaked, fully returned", [
         ("Proofs/RecvRelP.v", ["rr_inv_init", "rr_process_message_safe", "rr_process_slice_safe", "rr_receive_safe", "drained_is_empty"]),
